@@ -80,21 +80,27 @@ class BaseComponent(Manager):
     def __new__(cls, *args, **kwargs):
         self = super().__new__(cls)
 
-        handlers = {k: v for k, v in list(cls.__dict__.items()) if getattr(v, 'handler', False)}
+        mro = cls.__mro__
 
-        def overridden(x):
-            return x in handlers and handlers[x].override
+        def overridden(x, nearer):
+            # redefined with override=True by cls or a class between cls and the base
+            for c in nearer:
+                h = c.__dict__.get(x)
+                if getattr(h, 'handler', False) and h.override:
+                    return True
+            return False
 
-        for base in cls.__bases__:
-            if issubclass(cls, base):
-                for k, v in list(base.__dict__.items()):
-                    p1 = isinstance(v, Callable)
-                    p2 = getattr(v, 'handler', False)
-                    p3 = overridden(k)
-                    if p1 and p2 and not p3:
-                        name = f'{base.__name__}_{k}'
-                        method = MethodType(v, self)
-                        setattr(self, name, method)
+        # all bases, not only the direct ones: a handler of an indirect base
+        # that is redefined further down without override stays an
+        # additional handler for subclasses of the redefining class, too
+        for i, base in enumerate(mro[1:], 1):
+            for k, v in list(base.__dict__.items()):
+                p1 = isinstance(v, Callable)
+                p2 = getattr(v, 'handler', False)
+                if p1 and p2 and not overridden(k, mro[:i]):
+                    name = f'{base.__name__}_{k}'
+                    method = MethodType(v, self)
+                    setattr(self, name, method)
 
         return self
 
